@@ -282,6 +282,24 @@ def shard_short_strings(task):
     return ev, list(fails.values())
 
 
+def shard_long_strings(task):
+    """the filters have no length limit: runs of 30..400 significant characters, pure and mixed"""
+    core.setup_repo()
+    F = _filters()
+    ev = core.Evidence()
+    fails = {}
+    units = list("&<>\"'") + ["<b>&", "&amp;", "\u00e9&", "a\n ", "\u00bd<", "%+ ", "&#65;"]
+    for u in units:
+        for n in (30, 31, 32, 33, 34, 63, 64, 65, 100, 257, 400):
+            s = (u * n)[:max(n, len(u))]
+            try:
+                check_all_str(F, s, ev, with_template=(n in (33, 100)), dedupe=False)
+            except Failure as f:
+                fails.setdefault(f.key, f)
+    ev.sample({"filter": "all", "input": "<b>&" * 33}, "long")
+    return ev, list(fails.values())
+
+
 def shard_random(task):
     seed, n = task
     core.setup_repo()
@@ -356,6 +374,7 @@ def run(ctx):
     ctx.pmap(shard_codepoints, tasks)
     # (2) all strings len<=3 over ALPHA
     ctx.pmap(shard_short_strings, [(1, 0, 1), (2, 0, 1)] + [(3, i, 8) for i in range(8)])
+    ctx.pmap(shard_long_strings, [0])
     # (3) random
     n = ctx.pick(400, 6000)
     ctx.pmap(shard_random, [(ctx.shard_seed(i), n) for i in range(ctx.pick(4, 16))])
